@@ -15,6 +15,7 @@ pub static DEF: PropDef = PropDef {
     assumptions: &["ages < 0, -daystart and -newerXt are outside the statement and not asserted", "timestamps are read back after set-up and again after the run (the run must not disturb them)", "equal ctimes (both changes in one kernel tick) occur by coincidence and are counted, not forced"],
     run,
     replay,
+    fuzz: None,
 };
 
 const BASE_S: i64 = 1_700_000_000;
